@@ -2,7 +2,9 @@
   NV.Driver.Cap — `cap <K> <events>`: what the capacity model predicts for a rendezvous of K+2
   slow queries after an arbitrary storm of request endings: exactly K run concurrently (the
   semaphore has K units and, by NV.C04, every path gave its unit back), all K+2 are answered once
-  the gate opens, and the proxy still answers a probe.
+  the gate opens, and the proxy still answers a probe; a second rendezvous of K+2 slow queries
+  alternating UDP and TCP never shows more than K at once (one pool for every listener,
+  `NV.C04.gen_single_semaphore` + `concurrent_handlers_le_K`) and is answered in full.
 -/
 namespace NV
 
@@ -24,7 +26,7 @@ def stepCap (toks : List String) : Option String :=
       if k = 0 ∨ !(events.all fun e => capEventKinds.contains e) then some "bad-op"
       else
         let c := capAfterStorm k events
-        some s!"max={c} replied={k + 2}/{k + 2} probe=ok"
+        some s!"max={c} replied={k + 2}/{k + 2} probe=ok mix=ok mixreplied={k + 2}/{k + 2}"
   | _ => none
 
 end NV
